@@ -459,7 +459,10 @@ public:
 	Array& append(const T* p, int n)
 	{
 		int m=length();
+		int ip = (p >= _a && p < _a + m) ? int(p - _a) : -1; // p may point into this array, which resize() can move
 		resize(m + n);
+		if (ip >= 0)
+			p = _a + ip;
 		for (int i=0; i<n; i++)
 			_a[m+i] = p[i];
 		return *this;
